@@ -267,4 +267,39 @@ reg(
     thorough={"shards": 16, "timeout_s": 4 * 3600, "n_ir": 90, "n_fam": 40, "n1": 20000,
               "required_classes": ["C09.ir_mh", "C09.ir_mala", "C09.ir_hmc", "C09.mixture_indicator", "C09.stationary_hmc"]},
 )
+
+reg(
+    "C10",
+    "A case is (model family: discrete step model with generated transition/emission/proposal tables, K,M in 2..3, T in 1..4, "
+    "or 1-d linear-Gaussian step model; default or custom proposal; N in {1,2,3,5,8}; either a hand-composed pipeline "
+    "init -> generated moves over {extend, resample(categorical|systematic), rejuvenate(mh)} or rejuvenation_smc with/without "
+    "kernel/proposal, return_all_particles). Deterministic: every particle's log weight after every init/extend equals the "
+    "reference log p(choices, obs so far) - log q(choices); rejuvenate leaves weights untouched. Statistical: "
+    "E[exp(log_marginal_likelihood())] = exact marginal likelihood (brute force / Kalman), estimate-weighted indicator "
+    "averages = unnormalised posterior. Non-trivial: >= 1 extend or resample after init, or a custom proposal. "
+    "Distinct = hash of the case.",
+    quick={"shards": 16, "timeout_s": 1500, "n_cases": 6, "n1": 3000,
+           "required_classes": ["C10.pipeline", "C10.rejuvenation_smc", "C10.family_D", "C10.family_G", "C10.proposal_custom", "C10.proposal_default",
+                                "C10.move_extend", "C10.move_resample_sys", "C10.move_resample_cat", "C10.move_rejuvenate", "C10.N_1", "C10.N_many", "C10.rsmc_with_kernel"]},
+    thorough={"shards": 16, "timeout_s": 4 * 3600, "n_cases": 80, "n1": 20000,
+              "required_classes": ["C10.pipeline", "C10.rejuvenation_smc", "C10.family_D", "C10.family_G", "C10.proposal_custom", "C10.N_1"]},
+)
+
+reg(
+    "C11",
+    "A case is an expectation program from a grammar: 1-3 ADEV sites (flip_enum, flip_enum_parallel, categorical_enum_parallel, "
+    "flip_reinforce, flip_mvd, geometric_reinforce, normal/uniform reparam and reinforce, multivariate normal diag/full reparam, "
+    "multivariate normal reinforce) whose parameters are smooth functions of 1-2 arguments and of earlier draws, a smooth return "
+    "expression optionally selecting on a discrete draw (arithmetic where or lax.cond) or a lax.cond on theta; configuration "
+    "seed / jit(seed) / modular_vmap over a batch of thetas. Oracle: exact enumeration + Gauss quadrature in float64 and "
+    "Richardson finite differences. Enumeration-only programs must be exact for every key; others are tested by calibrated "
+    "block-mean t-tests over thousands of keys, reparameterised-only programs additionally by the per-draw pathwise identity. "
+    "Non-trivial: >= 2 estimator kinds, or a parameter depending on an earlier draw, or a cond/where. Distinct = hash of the case.",
+    quick={"shards": 16, "timeout_s": 1500, "n_cases": 8, "n1": 6000,
+           "required_classes": ["C11.all_enum_exact", "C11.stochastic_calibrated", "C11.composition_of_different_estimator_kinds", "C11.param_depends_on_earlier_draw",
+                                "C11.site_flip_enum", "C11.site_flip_enum_parallel", "C11.site_categorical_enum_parallel", "C11.site_flip_mvd", "C11.site_flip_reinforce",
+                                "C11.site_normal_reparam", "C11.site_normal_reinforce", "C11.mode_jit", "C11.mode_vmap_thetas", "C11.ret_cond"]},
+    thorough={"shards": 16, "timeout_s": 4 * 3600, "n_cases": 100, "n1": 40000,
+              "required_classes": ["C11.all_enum_exact", "C11.stochastic_calibrated", "C11.composition_of_different_estimator_kinds"]},
+)
 NOT_CLAIMED = {}
